@@ -9,7 +9,9 @@ V01 = 0x3DCCCCCD
 F32_SPECIAL = [0x00000000, 0x80000000, 0x00000001, 0x007FFFFF, 0x00800000, 0x3F800000, 0xBF800000, 0x7F7FFFFF,
                0x7F800000, 0xFF800000, 0x7FC00000, 0xFFC00000, 0x7FC12345, 0x7F800001, 0x3DCCCCCD, 0x3E4CCCCD, 0x41C80000]
 STR_POOL = ["", "a", "pose_keypoints_2d", "NOSE", "é", "ß∂", "手", "右手の人差し指", "𝔘𝔫𝔦", "é", "a\u0000b", " x", "🙂👍",
-            "x" * 255, "x" * 256, "é" * 130]
+            "x" * 255, "x" * 256, "é" * 130,
+            # code points that codecs and text layers like to treat specially, first / last / alone
+            "\ufeffwrist", "\ufeff", "a\ufeffb", "\u2028x", "x\r\n", "\n", "\ud7ff\ue000", "\uffff", "\U0010ffff", "\x7f\x80", "x ", "\t", "\u0301e", "\u200b", "\x00"]
 
 
 def hx(s):
